@@ -7,6 +7,8 @@ func init() {
 		"a network-level failure (connection closed without an answer, the exporter's own per-request timeout) may or may not be retried",
 		"Shutdown is asserted relative to the moment it returned; exporters whose Shutdown waits for the in-flight export satisfy the clause trivially",
 		"only delay-seconds Retry-After values count as a server hint",
+		"HTTP answers: 200 is the only success generated; every other status outside 429/502/503/504 (3xx that a Go client does not follow, all 4xx, all other 5xx up to 599) is non-retryable; gRPC codes 17 and 99 are non-retryable",
+		"an export made after Shutdown is only required not to block (the six exporters document different results); Shutdown before Start on the trace exporters is a no-op after which the exporter behaves like a fresh one",
 		"the open Retry-After unit finding explains only a wait that is shorter than N seconds but not shorter than N nanoseconds; a shorter wait, or a re-send where even the nanosecond reading exceeds MaxElapsedTime, is a violation",
 	))
 }
